@@ -48,6 +48,17 @@ func (g *Gen) txEth(kind string, hostile bool) STx {
 		case 1:
 			t.A["idx"] = 4
 		}
+	case "OLVM":
+		// a free-standing OLVM request (mempool pools, mutation bases): a transfer or a call with a low sequence number
+		eo := g.G.EthAccounts
+		if len(eo) == 0 {
+			eo = []string{"e1", "e2"}
+		}
+		f := g.pick(eo)
+		to := g.pick(append(append([]string{}, eo...), g.accts...))
+		t.A = A{"from": f, "to": to, "amt": g.rng(0, 500), "nonce": g.R.Intn(4), "data": ""}
+		t.Gas = 120000
+		return STx{Req: t, Path: "honest"}
 	default:
 		panic("unknown kind " + kind)
 	}
